@@ -102,17 +102,18 @@ pub fn confirm_and_write(
 ) -> Option<PathBuf> {
     let (a, _) = h.run(f.cfg, &f.choices, true);
     let (b, _) = h.run(f.cfg, &f.choices, false);
-    if a.trace_hash != b.trace_hash {
+    let in_a = a.violations.iter().any(|v| v.signature == f.v.signature);
+    let in_b = b.violations.iter().any(|v| v.signature == f.v.signature);
+    // The same schedule must fail every time. When the two replays differ in their traces but
+    // both break the same rule, the nondeterminism is the subject's own (say, a freshly drawn
+    // random number in a field that should have been copied) and the verdict stands; a verdict
+    // that shows in one replay only is not believed.
+    let subject_nondeterministic = a.trace_hash != b.trace_hash;
+    if !(in_a && in_b) {
         machinery.push(format!(
-            "violation {} did not replay deterministically",
-            f.v.signature
-        ));
-        return None;
-    }
-    if !a.violations.iter().any(|v| v.signature == f.v.signature) {
-        machinery.push(format!(
-            "violation {} did not reproduce on replay",
-            f.v.signature
+            "violation {} did not reproduce on replay ({})",
+            f.v.signature,
+            if subject_nondeterministic { "and the two replays differ" } else { "deterministic replay" }
         ));
         return None;
     }
@@ -128,6 +129,7 @@ pub fn confirm_and_write(
         "config": h.config_json(f.cfg),
         "choices": f.choices,
         "deviations": cost(&f.choices),
+        "replays_differ_but_both_break_the_rule": subject_nondeterministic,
         "trace": a.render.unwrap_or_default().lines().map(|l| l.to_string()).collect::<Vec<_>>(),
     });
     std::fs::write(&path, serde_json::to_string_pretty(&doc).unwrap()).ok()?;
@@ -348,6 +350,10 @@ pub fn run_parts(parts: &[&dyn Harness], spec: Spec) -> i32 {
     if !machinery.is_empty() {
         for m in machinery.iter().take(5) {
             eprintln!("machinery: {m}");
+        }
+        // a violation that was replayed twice stands on its own feet
+        if !violations.is_empty() {
+            return 1;
         }
         return 2;
     }
